@@ -71,3 +71,19 @@ Theorem C11_second_sslrequest : forall c s,
   session c [] s = [Closed].
 Proof. intros c s. unfold session. reflexivity. Qed.
 Print Assumptions C11_second_sslrequest.
+
+(* the refusal restarts nothing: on a server without certificates the connection that opened with an
+   SSLRequest is, behind the single byte 'N', exactly the connection of the remaining byte stream — whatever
+   that stream is and however it was segmented (the model reads one byte stream): the startup packet that
+   travelled in the same segment as the SSLRequest is honoured like any other *)
+Theorem C11_declined_transparent : forall c raw tls tls' a r v2 a2 r2,
+  cfg_tls c = false -> start c raw = Some (version_ssl, a, r) ->
+  start c r = Some (v2, a2, r2) -> v2 <> version_ssl ->
+  serve c raw tls = RawOut x4e :: serve c r tls'.
+Proof.
+  intros c raw tls tls' a r v2 a2 r2 T S S2 N.
+  rewrite (C11_reply_N c raw tls a r T S). f_equal. unfold serve. rewrite S2.
+  destruct (Z.eqb_spec v2 version_cancel); [reflexivity|].
+  destruct (Z.eqb_spec v2 version_ssl); [contradiction|reflexivity].
+Qed.
+Print Assumptions C11_declined_transparent.
